@@ -11,7 +11,8 @@ R = Rules(
     explanation=(
         "Clauses of response matching decided on tokenmanager.py, protocol.Request and udp6.  a-e are decided by running "
         "TokenManager.request / process_response / next_token / dispatch_error in the checker's own evaluator (tree-walking "
-        "interpreter over the syntax trees, nothing of the repository is executed) on small worlds -- finite request tables "
+        "interpreter over the syntax trees as written, before helper expansion, so that calls, closures, defaults and "
+        "functools.partial bind exactly as in Python; nothing of the repository is executed) on small worlds -- finite request tables "
         "keyed by tuples of distinct individuals, concrete Observe / is_multicast values, opaque request objects whose calls "
         "are recorded -- and comparing events, final tables and return values with the property: the request is filed under "
         "(token, remote), remote = None exactly for multicast destinations; a response goes exactly once to the entry under "
@@ -41,6 +42,19 @@ TM = "tokenmanager.TokenManager."
 # tree (coaplint/baseline_functions.txt, e.g. next_token) and calls on foreign objects are opaque events; methods
 # that are not part of the confirmed tree are helpers and are evaluated.  Anything outside the evaluator's
 # vocabulary is an analysis error, never a violation.
+#
+# The worlds are evaluated on the sources AS WRITTEN (kit.raw_program), not on the engine's canonical form: an
+# interpreter needs no canonical form, and helper expansion is not exact where binding time matters -- it
+# substitutes the argument of a closure factory into the closure it returns (`[failing(request) for ...]` with
+# `def failing(request): return lambda: request.add_exception(e)` becomes `[lambda: request.add_exception(e) for
+# ...]`), turning a per-call binding into a reference to the loop variable.  In the evaluator every call creates a
+# fresh frame and every lambda / nested def captures the frame it was created in (a comprehension has ONE frame for
+# all its iterations, a `for` loop assigns in the enclosing frame), which gives each binding idiom its Python
+# meaning: bound per callable are closure factories (nested def, method, module function, immediately applied
+# lambda), functools.partial, default arguments, bound methods, operator.methodcaller, instances of a small
+# callable class; bound late (and reported by C02.e on a world with two requests of the remote) are a lambda / def
+# in a loop or comprehension that refers to the loop variable, a factory that ignores its parameter, a default or a
+# partial that binds something else than the request.
 
 
 class _Verdicts:
@@ -58,6 +72,11 @@ class _Verdicts:
             # opaque call): it may be correlated with the modelled facts, so the run is no counterexample
             raise AnalysisError("%s: the evaluated world does not determine the outcome: `%s` depends on %s" % (
                 self.fi.short, desc, ", ".join(sorted(run.it.facts))[:300]))
+        if not ok and run is not None and run.it.blind:
+            # the refuting run called a value the world knows nothing about (a callable obtained from a library the
+            # evaluator does not model): the missing effect may be exactly what that call does
+            raise AnalysisError("%s: the evaluated world does not determine the outcome: `%s` after calling the unmodelled %s" % (
+                self.fi.short, desc, ", ".join(sorted(set(run.it.blind)))[:300]))
         if desc not in self.items:
             self.items[desc] = [0, None, node]
             self.order.append(desc)
@@ -95,16 +114,46 @@ def _cached(ctx, key, build):
     return v
 
 
-def _no_foreign_objects(ctx, it, what):
+def _no_foreign_objects(ctx, it, what, tables=()):
     """The worlds file requests under plain tuples; a function that wraps keys or entries in objects of its own
     (a key class, a record) is outside what the worlds can represent: refuse instead of misjudging identity."""
+    stored = []
+
+    def reach(v, depth=0):
+        if isinstance(v, kit.Obj):
+            stored.append(v)
+        elif isinstance(v, tuple) and depth < 4:
+            for x in v:
+                reach(x, depth + 1)
+        elif isinstance(v, kit.VList) and depth < 4:
+            for x in v.items:
+                reach(x, depth + 1)
+    for d in tables:
+        for k, v in d.pairs:
+            reach(k)
+            reach(v)
     for ev in it.events:
-        if ev.kind == "new" and not ctx.prog.is_subclass(ev.cls, "BaseException"):
+        if ev.kind == "new" and not it.prog.is_subclass(ev.cls, "BaseException"):
+            # instances of a plain new class whose methods were evaluated (a callable object used as a callback) are
+            # exact as long as they stay out of the request tables
+            if getattr(ev, "evaluated", False) and ev.obj not in stored:
+                continue
             raise AnalysisError("%s constructs %s: outside the small worlds of the rule" % (what, ev.cls))
 
 
 def _tm_qn(ctx):
     return ctx.prog.cls("tokenmanager.TokenManager").qn
+
+
+def _world_prog(ctx):
+    """The program the worlds are evaluated on: the sources as written (kit.raw_program explains why not the
+    engine's canonical form)."""
+    return kit.raw_program(ctx.prog)
+
+
+def _anchor(ctx, prog, short):
+    ctx.prog.touched.add("aiocoap." + short)
+    return prog.func(short)
 
 
 def _show_key(k):
@@ -121,7 +170,8 @@ def _process_response_runs(ctx):
     """process_response on 4 tables x 3 request-Observe values x 3 response-Observe values.  The table always holds
     decoys that agree with the response in one component only."""
     def build():
-        fi = ctx.prog.func(TM + "process_response")
+        prog = _world_prog(ctx)
+        fi = _anchor(ctx, prog, TM + "process_response")
         ps = params(fi)
         ctx.need(len(ps) == 1, "process_response: one parameter expected")
         qn = _tm_qn(ctx)
@@ -130,7 +180,7 @@ def _process_response_runs(ctx):
             for ro in (None, 0, 1):
                 for so in (None, 0, 7):
                     def run(script, table=table, ro=ro, so=so):
-                        it = kit.Interp(ctx.prog, script)
+                        it = kit.Interp(prog, script)
                         T, T2 = kit.Obj("token", True), kit.Obj("other-token", True)
                         Rm, R2 = kit.Obj("remote", True), kit.Obj("other-remote", True)
 
@@ -155,7 +205,7 @@ def _process_response_runs(ctx):
                         r.full_key, r.fallback_key = (T, Rm), (T, None)
                         r.result = it.run_method(fi, me, [resp])
                         r.it = it
-                        _no_foreign_objects(ctx, it, "process_response")
+                        _no_foreign_objects(ctx, it, "process_response", [D])
                         return it, r
                     for it, r in kit.explore(run):
                         runs.append(r)
@@ -246,7 +296,8 @@ def _request_runs(ctx):
     """request() on {unicast, multicast} x {interest alive, interest already gone (on_interest_end fires at once, as
     Pipe.on_interest_end does)}; the table already holds decoy entries."""
     def build():
-        fi = ctx.prog.func(TM + "request")
+        prog = _world_prog(ctx)
+        fi = _anchor(ctx, prog, TM + "request")
         ps = params(fi)
         ctx.need(len(ps) == 1, "request: one parameter expected")
         qn = _tm_qn(ctx)
@@ -277,11 +328,11 @@ def _request_runs(ctx):
                             r.tokens.append(t)
                             return t
                         return NotImplemented
-                    it = kit.Interp(ctx.prog, script, opaque_call=opaque)
+                    it = kit.Interp(prog, script, opaque_call=opaque)
                     r.initial, r.D, r.rq, r.msg, r.remote, r.me = [(k, v) for k, v in pairs], D, rq, msg, Rm, me
                     r.result = it.run_method(fi, me, [rq])
                     r.it = it
-                    _no_foreign_objects(ctx, it, "request")
+                    _no_foreign_objects(ctx, it, "request", [D])
                     return it, r
                 for it, r in kit.explore(run):
                     runs.append(r)
@@ -421,7 +472,8 @@ def d(ctx):
         for kind, node in hits:
             fi = ctx.prog.funcs["aiocoap." + fn]
             ctx.ob("the token counter is written only by __init__ and next_token", fn in (TM + "__init__", TM + "next_token"), fi, node)
-    fi = ctx.prog.func(TM + "next_token")
+    prog = _world_prog(ctx)
+    fi = _anchor(ctx, prog, TM + "next_token")
     ctx.need(not params(fi), "next_token takes no arguments")
     qn = _tm_qn(ctx)
     V = _Verdicts(ctx, fi)
@@ -430,7 +482,7 @@ def d(ctx):
     seen = {}
     for k in _COUNTERS:
         me = kit.Obj("self", True, cls=qn, attrs={"_token": k})
-        it = kit.Interp(ctx.prog)
+        it = kit.Interp(prog)
         kind, tok = it.run_method(fi, me, [])
         ctx.need(kind == "return" and not it.choices, "next_token: the evaluated world is not deterministic")
         after = me.attrs.get("_token")
@@ -457,11 +509,12 @@ def _dispatch_error_runs(ctx):
     each, for an exception that is / is not a NetworkError.  As in the library, failing a request retires its entry
     (Pipe.add_exception -> on_interest_end callback) and a stopper removes the incoming entry it belongs to."""
     def build():
-        fi = ctx.prog.func(TM + "dispatch_error")
+        prog = _world_prog(ctx)
+        fi = _anchor(ctx, prog, TM + "dispatch_error")
         ps = params(fi)
         ctx.need(len(ps) == 2, "dispatch_error: (exception, remote) expected")
         qn = _tm_qn(ctx)
-        ne = ctx.prog.cls("error.NetworkError").qn
+        ne = prog.cls("error.NetworkError").qn
         runs = []
         for isnet in (False, True):
             def run(script, isnet=isnet):
@@ -490,10 +543,10 @@ def _dispatch_error_runs(ctx):
                         I.pairs[:] = [p for p in I.pairs if not (isinstance(p[1], tuple) and callee in p[1])]
                         return None
                     return NotImplemented
-                it = kit.Interp(ctx.prog, script, opaque_call=opaque, isa={(exc.name, ne): isnet})
+                it = kit.Interp(prog, script, opaque_call=opaque, isa={(exc.name, ne): isnet})
                 r.result = it.run_method(fi, me, [exc, Rm])
                 r.it = it
-                _no_foreign_objects(ctx, it, "dispatch_error")
+                _no_foreign_objects(ctx, it, "dispatch_error", [O, I])
                 return it, r
             for it, r in kit.explore(run):
                 runs.append(r)
@@ -581,13 +634,42 @@ def j_forward(ctx):
     whatever the state of the exchange tables -- except after shutdown."""
     fi = ctx.prog.func("messagemanager.MessageManager.dispatch_error")
     p = params(fi)
+    ctx.need(len(p) == 2, "MessageManager.dispatch_error: (error, remote) expected")
     cfg = cfg_of(fi)
-    fw = [c for c, b in find("self.token_manager.dispatch_error($e, $r)", fi.node) if isinstance(b["e"], ast.Name) and b["e"].id == p[0] and isinstance(b["r"], ast.Name) and b["r"].id == p[1]]
+    callee = params(ctx.prog.func(TM + "dispatch_error"))
+    ctx.need(len(callee) == 2, "TokenManager.dispatch_error: (exception, remote) expected")
+
+    def forwards(c):
+        """c calls dispatch_error of the token manager with (own error, own remote): receiver and arguments are
+        resolved through single-assignment locals, arguments may be positional or keywords of the callee."""
+        if not (isinstance(c.func, ast.Attribute) and c.func.attr == "dispatch_error"):
+            return False
+        if chain(resolve_local(fi.node, c.func.value)) != "self.token_manager":
+            return False
+        if any(isinstance(a, ast.Starred) for a in c.args) or any(k.arg is None for k in c.keywords) or len(c.args) > 2:
+            return False
+        got = dict(zip(callee, c.args))
+        for k in c.keywords:
+            if k.arg in got or k.arg not in callee:
+                return False
+            got[k.arg] = k.value
+        vals = [resolve_local(fi.node, got[n]) if n in got else None for n in callee]
+        return all(isinstance(v, ast.Name) and v.id == own for v, own in zip(vals, p))
+    fw = [c for c in calls_in(fi.node) if forwards(c)]
     ctx.ob("MessageManager.dispatch_error forwards the error and the remote to the token manager", len(fw) >= 1, fi, fi.node, construct="MessageManager.dispatch_error: forward to the token manager")
     if not fw:
         return
-    # the only way past the forward is the retired-table (shutdown) guard
-    shut = {n.id for n in cfg.nodes if (n.kind == "T" and match("self._active_exchanges is None", n.ast) is not None) or (n.kind == "F" and match("self._active_exchanges is not None", n.ast) is not None)}
+    # the only way past the forward is the retired-table (shutdown) guard; the guard is recognised by its
+    # normalised atom (`is None` / `is not None` / `==` / mirrored operands / `not` are the same atom)
+    from ..paths import atom_key
+    want, _pol = atom_key(ast.parse("self._active_exchanges is None", mode="eval").body)
+
+    def shut_outcome(n):
+        if n.kind not in ("T", "F") or not isinstance(n.ast, ast.expr):
+            return False
+        key, pol = atom_key(n.ast)
+        return key == want and pol == (n.kind == "T")
+    shut = {n.id for n in cfg.nodes if shut_outcome(n)}
     ok = cfg.must_pass(cfg.entry, {cfg.loc1(c) for c in fw} | shut)
     ctx.ob("every reported transport error reaches the token manager (requests without an open exchange -- NON, separate response pending, observations -- fail too)", ok, fi, fw[0])
 
@@ -700,6 +782,10 @@ R.seed("C02.d", F_TM, "        return self._token.to_bytes(8, \"big\").lstrip(b\
 R.seed("C02.e", F_TM, "            if request_remote == remote:\n                stoppers.append(", "            if True:\n                stoppers.append(", "all remotes failed")
 R.seed("C02.e", F_TM, "        if not isinstance(exception, error.NetworkError):\n            cause = exception\n            exception = error.NetworkError(str(exception))\n            exception.__cause__ = cause\n", "", "raw OSError handed to the application")
 R.seed("C02.e", F_TM, "                    lambda request=request, exception=exception: request.add_exception(\n                        exception\n                    )", "                    lambda: request.add_exception(\n                        exception\n                    )", "late-binding closure: only the last request is failed")
+R.seed("C02.e", F_TM, "                    lambda request=request, exception=exception: request.add_exception(\n                        exception\n                    )", "                    (lambda r: lambda: request.add_exception(exception))(request)",
+       "closure factory that ignores its parameter: the closures still refer to the loop variable")
+R.seed("C02.e", F_TM, "                    lambda request=request, exception=exception: request.add_exception(\n                        exception\n                    )", "                    functools.partial(lambda exc: request.add_exception(exc), exception)",
+       "partial binds the exception only, the request is looked up when the stopper runs")
 R.seed("C02.e", F_TM, "        for (_, _r), (_, stopper) in self.incoming_requests.items():\n            if remote == _r:\n                stoppers.append(stopper)", "        stoppers.extend(stopper for (_, stopper) in self.incoming_requests.values())", "incoming requests of all remotes stopped")
 R.seed("C02.e", F_TM, "        for (_, _r), (_, stopper) in self.incoming_requests.items():\n            if remote == _r:", "        for (_r, _), (_, stopper) in self.incoming_requests.items():\n            if remote == _r:", "compares the token component with the remote: nothing is ever stopped")
 R.seed("C02.f", "aiocoap/protocol.py", "        if self.observation is None:\n            if not first_event.is_last:", "        if self.observation is None:\n            self.response.set_result(first_event.message)\n            if not first_event.is_last:", "second completion")
